@@ -11,6 +11,7 @@ import (
 	"sort"
 	"strconv"
 	"strings"
+	"sync/atomic"
 	"time"
 )
 
@@ -646,32 +647,69 @@ func parentMain(eng Engine, o *Options) int {
 		log *strings.Builder
 	}
 
-	procs := make([]*proc, o.Workers)
-
-	for w := 0; w < o.Workers; w++ {
-		out := filepath.Join(tmp, fmt.Sprintf("w%d.json", w))
-		args := []string{
-			"-worker", "-property", o.Property, "-tier", o.Tier, "-seed", fmt.Sprint(int64(o.Seed)),
-			"-workers", fmt.Sprint(o.Workers), "-index", fmt.Sprint(w), "-out", out,
-			"-known", o.KnownPath, "-cap", fmt.Sprint(o.CapSec),
+	// The batch is split into "virtual workers" (index v, stride V). Normally V is
+	// the number of worker processes. An engine whose oracle depends on process-wide
+	// state being cold (E7: lazily initialised package-level state races only the
+	// first time) asks for short-lived processes: V grows, and at most o.Workers of
+	// them run at a time.
+	virtual := o.Workers
+	if rp, ok := eng.(interface{ RunsPerProcess() int }); ok && rp.RunsPerProcess() > 0 {
+		if v := (total + rp.RunsPerProcess() - 1) / rp.RunsPerProcess(); v > virtual {
+			virtual = v
 		}
-
-		if o.RunsOver > 0 {
-			args = append(args, "-runs", fmt.Sprint(o.RunsOver))
-		}
-
-		cmd := exec.Command(os.Args[0], args...)
-		lg := &strings.Builder{}
-		cmd.Stdout = lg
-		cmd.Stderr = lg
-		cmd.Env = append(os.Environ(), WorkerEnv(eng, tmp, w)...)
-
-		if err := cmd.Start(); err != nil {
-			harness("start worker: %v", err)
-		}
-
-		procs[w] = &proc{cmd: cmd, out: out, log: lg}
 	}
+
+	procs := make([]*proc, virtual)
+	sem := make(chan struct{}, o.Workers)
+	done := make(chan int, virtual)
+	errs := make([]error, virtual)
+	var stopLaunch atomic.Bool
+
+	go func() {
+		for w := 0; w < virtual; w++ {
+			sem <- struct{}{}
+
+			if stopLaunch.Load() {
+				errs[w] = errSkipped
+				done <- w
+				<-sem
+
+				continue
+			}
+
+			out := filepath.Join(tmp, fmt.Sprintf("w%d.json", w))
+			args := []string{
+				"-worker", "-property", o.Property, "-tier", o.Tier, "-seed", fmt.Sprint(int64(o.Seed)),
+				"-workers", fmt.Sprint(virtual), "-index", fmt.Sprint(w), "-out", out,
+				"-known", o.KnownPath, "-cap", fmt.Sprint(o.CapSec),
+			}
+
+			if o.RunsOver > 0 {
+				args = append(args, "-runs", fmt.Sprint(o.RunsOver))
+			}
+
+			cmd := exec.Command(os.Args[0], args...)
+			lg := &strings.Builder{}
+			cmd.Stdout = lg
+			cmd.Stderr = lg
+			cmd.Env = append(os.Environ(), WorkerEnv(eng, tmp, w)...)
+			procs[w] = &proc{cmd: cmd, out: out, log: lg}
+
+			if err := cmd.Start(); err != nil {
+				errs[w] = err
+				done <- w
+				<-sem
+
+				continue
+			}
+
+			go func(w int) {
+				errs[w] = procs[w].cmd.Wait()
+				done <- w
+				<-sem
+			}(w)
+		}
+	}()
 
 	agg := NewStats(nil)
 
@@ -680,10 +718,23 @@ func parentMain(eng Engine, o *Options) int {
 		capped bool
 	)
 
-	for w, p := range procs {
-		err := p.cmd.Wait()
-		if err != nil {
-			tail := p.log.String()
+	deadline := start.Add(time.Duration(o.CapSec) * time.Second)
+
+	for n := 0; n < virtual; n++ {
+		w := <-done
+		p := procs[w]
+
+		if errs[w] == errSkipped {
+			capped = true
+			continue
+		}
+
+		if err := errs[w]; err != nil {
+			tail := ""
+			if p != nil {
+				tail = p.log.String()
+			}
+
 			if len(tail) > 6000 {
 				tail = tail[len(tail)-6000:]
 			}
@@ -702,12 +753,18 @@ func parentMain(eng Engine, o *Options) int {
 			harness("worker %d result: %v", w, err)
 		}
 
+		os.Remove(p.out)
 		agg.Merge(fromWire(r.Stats))
 
 		capped = capped || r.Capped
 
 		if r.Violation != nil {
 			viols = append(viols, r.Violation)
+			stopLaunch.Store(true) // a violation ends the batch: no further processes are started
+		}
+
+		if time.Now().After(deadline) {
+			stopLaunch.Store(true)
 		}
 	}
 
@@ -798,6 +855,8 @@ func parentMain(eng Engine, o *Options) int {
 
 	return code
 }
+
+var errSkipped = fmt.Errorf("not started")
 
 // WorkerEnv lets an engine add environment variables for its workers (E7 sets GORACE).
 func WorkerEnv(eng Engine, tmp string, index int) []string {
